@@ -18,6 +18,7 @@ func init() {
 	vrt.Register("C04_iterables", Iterables)
 	vrt.Register("C04_calls", Calls)
 	vrt.Register("C04_typed_parameters", TypedParameters)
+	vrt.Register("C04_receiver_forms", ReceiverForms)
 	vrt.Register("C04_helpers", Helpers)
 	vrt.Register("C04_helpers_iter", HelpersIter)
 	vrt.Register("C04_user_functions", UserFunctions)
@@ -484,4 +485,38 @@ func TypedParameters() {
 	ctx.Set("long", []int{1, 2, 3, 4, 5})
 	args := []string{"a", "short", "long", "[]", "[1, 2]", "\"s\"", "a, a"}
 	total("<%= "+f+"("+args[vrt.Choice(len(args))]+") %>", ctx)
+}
+
+// ---- methods called through values and pointers of one type whose two method
+// tables are numbered differently (pointer-receiver methods interleaved), in
+// every order, after every earlier render: never a panic
+type acct struct{ O string }
+
+func (a *acct) Audit() string { return "a" }
+func (a acct) Owner() string  { return a.O }
+func (a acct) Token() string  { return "t" }
+func (a *acct) Zed() string   { return "z" }
+
+type onlyPtr struct{ N int }
+
+func (o *onlyPtr) Get() int { return o.N }
+func (o *onlyPtr) Aaa() int { return 1 }
+
+func ReceiverForms() {
+	ctx := plush.NewContext()
+	ctx.Set("v", acct{O: "v"})
+	ctx.Set("p", &acct{O: "p"})
+	ctx.Set("mixed", []interface{}{&acct{O: "1"}, acct{O: "2"}, &onlyPtr{N: 3}, onlyPtr{N: 4}})
+	ctx.Set("op", &onlyPtr{N: 5})
+	ctx.Set("ov", onlyPtr{N: 6})
+	calls := []string{"p.Owner()", "v.Owner()", "p.Token()", "v.Token()", "p.Audit()", "v.Audit()", "p.Zed()", "v.Zed()", "op.Get()", "ov.Get()", "p.Owner", "v.Token", "op.Get"}
+	n := 2 + vrt.Tier()
+	in := ""
+	for i := 0; i < n; i++ {
+		in += "<%= " + calls[vrt.Choice(len(calls))] + " %>|"
+	}
+	if vrt.Choice(2) == 1 {
+		in += "<%= for (a) in mixed { %><%= a.Get() %><% } %>"
+	}
+	total(in, ctx)
 }
